@@ -490,8 +490,10 @@ Section Combinators.
        bl_cm := bl_cm st; bl_cs := c; bl_cmn := bl_cmn st; bl_cur := bl_cur st;
        bl_init := bl_init st; bl_done := bl_done st |}.
 
+  (* "s.shouldSearcher.Min() <= 0" (search_boolean.go; the comparison was "== 0" before /repo
+     895ea25: a negative minimum makes the should clause optional, not required) *)
   Definition should_min_is_zero (st : bool_st) : bool :=
-    match bl_should st with Some k => cmin k =? 0 | None => false end.
+    match bl_should st with Some k => cmin k <=? 0 | None => false end.
 
   (* "rv = score(...); advanceNextMust(rv); break" *)
   Definition bool_emit (st : bool_st) (id : Z) : option (res * bool_st) :=
@@ -778,7 +780,7 @@ Fixpoint denote (t : stree) : list Z :=
   | Bool _ m s n =>
       let base :=
         match m, s with
-        | Some m', Some s' => if min_of s' =? 0 then denote m' else inter (denote m') (denote s')
+        | Some m', Some s' => if min_of s' <=? 0 then denote m' else inter (denote m') (denote s')
         | Some m', None => denote m'
         | None, Some s' => denote s'
         | None, None => []
